@@ -299,7 +299,10 @@ class IndexClient(PathClient):
                 lo = self.p.try_const(self.f, value.slice.lower) if value.slice.lower is not None else 0
                 hi = self.p.try_const(self.f, value.slice.upper) if value.slice.upper is not None else 0
                 cut = (lo if isinstance(lo, int) and lo >= 0 else 0) + (-hi if isinstance(hi, int) and hi < 0 else 0)
-                if src_of(value.value) == X or True:
+                if (value.slice.lower is not None and not (isinstance(lo, int) and not isinstance(lo, bool) and lo >= 0)) \
+                        or (value.slice.upper is not None and not (isinstance(hi, int) and not isinstance(hi, bool) and hi < 0)):
+                    s = s.set(('len', X), 0)          # a computed bound: nothing is known about what is left
+                elif src_of(value.value) == X or True:
                     s = s.set(('len', X), max(0, self.min_len(s.set(('len', X), 0), src_of(value.value)) - cut) if src_of(value.value) != X else 0)
         elif isinstance(stmt, ast.Delete) and isinstance(target, ast.Subscript):
             base = src_of(target.value)          # del xs[i] / del xs[a:b]: the container shrinks by an unknown amount
